@@ -335,6 +335,46 @@ int main(int argc, char** argv) {
       ++units;
       runOne(sc, x, 0, [&](vrt::Ctl& c) { return msched::run_guided(c, sched, sameSite); }, &b);
     }
+  } else if (mode == "sweep") {
+    // One long preemption at every step of every thread: (optional prologue: thread 1 runs until it is about to unlock)
+    // thread X runs alone for n steps, is then parked, and the threads run by fixed priority `perm` (X included, so X
+    // may come back before or after the others).  n = 0,1,2,... until X cannot make n steps.  This covers "A parked at
+    // list-internal site S while B performs a whole push_back / the holder a whole unlock()" for every S.
+    static const int perms[6][3] = {{1,2,3},{1,3,2},{2,1,3},{2,3,1},{3,1,2},{3,2,1}};
+    long cap = a.num("cap", 100000);
+    for (long x = from; x < to && x < (long)scns.size(); ++x) {
+      const Scenario& sc = scns[x]; ++units; long k = 0;
+      for (int pro = 0; pro <= 1; ++pro)
+        for (int X = 1; X <= 3; ++X) {
+          if (sc.prog[X].empty() || (pro == 1 && X == 1)) continue;
+          for (int pi = 0; pi < 6; ++pi) {
+            if (perms[pi][0] == X) continue;                 // X first again = no preemption
+            for (long n = 0; n < 400 && k < cap; ++n) {
+              long xsteps = 0; int phase = pro ? 0 : 1;
+              runOne(sc, x, k++, [&](vrt::Ctl& c) {
+                msched::Fair f(c);
+                return msched::run_all(c, f, [&](const std::vector<int>& en, int) {
+                  auto isEn = [&](int t) { for (int e : en) if (e == t) return true; return false; };
+                  if (phase == 0) {
+                    if (isEn(1) && std::string(c.site(1)) != "mutex.h.unlock") return 1;
+                    phase = 1;
+                  }
+                  if (phase == 1) {
+                    if (xsteps < n && isEn(X)) { ++xsteps; return X; }
+                    if (xsteps < n && !c.finished(X)) {          // X is blocked: let the others help it, X keeps priority
+                      for (int j = 0; j < 3; ++j) if (perms[pi][j] != X && isEn(perms[pi][j])) return perms[pi][j];
+                    }
+                    phase = 2;
+                  }
+                  for (int j = 0; j < 3; ++j) if (isEn(perms[pi][j])) return perms[pi][j];
+                  return en[0];
+                });
+              }, nullptr);
+              if (xsteps < n) break;                          // X has no n-th step: all its preemption points are done
+            }
+          }
+        }
+    }
   } else if (mode == "replay") {   // one explicit schedule: --scn ID --sched 1,2,2,3...
     const Scenario& sc = *byId.at((int)a.num("scn", 1));
     std::vector<int> ts; { std::string s = a.str("sched"); size_t p = 0; while (p < s.size()) { size_t q = s.find(',', p); if (q == std::string::npos) q = s.size(); ts.push_back(std::stoi(s.substr(p, q - p))); p = q + 1; } }
